@@ -38,13 +38,15 @@ META = {
                    "permutation on ALL lists and an involution on depth-well-formed lists, and the forward log is the "
                    "reverse-by-depth of the reverse log; level 1 lists exactly the left-hand history; a mainline range "
                    "lists exactly the left-hand segment it denotes on the linear path, which agrees with the depth-0 part "
-                   "of the merge-sorted path entry by entry. REFUTED (finding C25-start-not-linear-leak): a range between two "
-                   "different merged branches of one base revision leaks the internal _StartNotLinearAncestor exception at "
-                   "level 1 (guarded version proved); a second finding (C25-open-end-valueerror) is an API-level crash. NOT "
-                   "proved: exactness of with-merges ranges (oracle only); the per-file filter clause is not covered."),
+                   "of the merge-sorted path entry by entry; no request lets the internal _StartNotLinearAncestor escape "
+                   "(unguarded since the repairs a31cbfe/036aad8; uses the proved facts that dotted revnos are distinct and "
+                   "a development line is a left-hand chain). NOT proved: exactness of with-merges ranges and the per-file "
+                   "clause (oracle only: per-file logs by delta matching and by the per-file graph must list exactly the "
+                   "revisions that touched the file id, across renames and batch boundaries; two known findings there)."),
     "level_note": ("Trusted: Coq kernel, vm_compute, the hand model's correspondence (bounded sampling), vcsgraph merge_sort "
                    "and graph queries as modelled (compared on every run). Only local bzr 2a branches without ghosts on "
-                   "walked left-hand histories; file filters, search filters and formatters are not modelled."),
+                   "walked left-hand histories; the per-file filters have an oracle but no model (linear histories with "
+                   "renames); search filters and formatters are not covered."),
     "design_ref": "DESIGN.md §5 C25",
     "trusted_base": ["hand model coq/Model/Log.v of breezy/log.py (and coq/Model/RevSpec.v for iter_merge_sorted_revisions, dotted revnos)",
                      "coq/Lib/DagMergeSort.v as a model of vcsgraph KnownGraph.merge_sort (compiled, outside /repo)",
